@@ -98,6 +98,9 @@ class FakeTransport:
         if self.disconnecting:
             return
         if self.net is None or not getattr(self.proto, '_authenticated', False):
+            if self.net is not None:
+                # the authentication lines this side wrote (for the byte-level model's `BNet.initH`)
+                self.net.handshake.setdefault(self.who, bytearray()).extend(data)
             self.out.buf += data
             self.out.total += len(data)
             return
@@ -213,6 +216,7 @@ class Net:
         self.links = []
         self.log = []
         self.sent_raw = []
+        self.handshake = {}
         self.crashes = []
         self.conns = {}        # idx -> connected DBusClientConnection (after Hello)
         self.conn_errs = {}
